@@ -162,7 +162,7 @@ def _table_one(idx):
                 if onr != want[0] or not close(ocut, want[1]):
                     bad.append(("wrong-grid", grid, "%s gives nr=%s cutoff=%s, statement says nr=%s cutoff=%s" % (lines, obs[1], obs[2], want[0], want[1]), text))
         # the table actually written
-        if want is not None and want[0] >= 3 and not bad:
+        if want is not None and want[0] >= 2 and not bad:
             for target in (["LAMMPS", "GULP", "DL_POLY", "setfl", "DL_POLY_EAM", "excel_eam"] if grid == "r" else ["setfl", "DL_POLY_EAM", "excel_eam"]):
                 if target == "excel_eam" and (want[0] > 50 or idx % 3):
                     continue
